@@ -57,9 +57,82 @@ let fmt_sketch (sk : sketch) : string =
   Printf.sprintf "sk=%s:%s:%s:%s:[%s]" (string_of_n sk.sk_size) (string_of_n sk.sk_sample)
     (string_of_n sk.sk_mask) (string_of_n sk.sk_tlen) (String.concat "," words)
 
+(* ---------- shared cfg parsing ---------- *)
+let n_cmp (a : n) (b : n) : int = match N.compare a b with Eq -> 0 | Lt -> -1 | Gt -> 1
+
+let opt_of_string s = if s = "none" then None else Some (n_of_string s)
+
+let parse_hasher s =
+  match String.split_on_char ':' s with
+  | [ "id" ] -> HId
+  | [ "mod"; m ] -> HMod (n_of_string m)
+  | [ "const"; c ] -> HConst (n_of_string c)
+  | [ "mul"; a ] -> HMul (n_of_string a)
+  | _ -> failwith ("bad hasher " ^ s)
+
+let parse_weigher = function
+  | "none" -> WNone | "value" -> WValue | "kv" -> WKeyPlusValue
+  | s -> failwith ("bad weigher " ^ s)
+
+let parse_pred toks =
+  match toks with
+  | [ "all" ] -> PAll
+  | [ "kmod"; m; r ] -> PKeyMod (n_of_string m, n_of_string r)
+  | [ "vlt"; x ] -> PValLt (n_of_string x)
+  | _ -> failwith "bad predicate"
+
+let assoc_def k kv d = match List.assoc_opt k kv with Some v -> v | None -> d
+
+(* position of a node id in an id-tagged list: "-" (no pointer), index, or "!" (dangling) *)
+let pos_in (l : (n * 'a) list) (p : n option) : string =
+  match p with
+  | None -> "-"
+  | Some id ->
+    let rec go i = function
+      | [] -> "!"
+      | (m, _) :: r -> if N.eqb m id then string_of_int i else go (i + 1) r
+    in
+    go 0 l
+
+(* ---------- unsync cache ---------- *)
+let fmt_ustate (s : ustate) : string =
+  let entries = List.sort (fun (a, _) (b, _) -> n_cmp a b) (u_map_list s) in
+  let es = List.map (fun (k, e) ->
+      Printf.sprintf "%s:%s:%s:%s:%s" (string_of_n k) (string_of_n e.ue_val) (string_of_n e.ue_weight)
+        (pos_in s.u_prob e.ue_ao) (pos_in s.u_wo e.ue_wo)) entries in
+  let ps = List.map (fun (_, nd) ->
+      Printf.sprintf "%s:%s:%s" (string_of_n nd.an_key) (string_of_n nd.an_hash) (opt_n nd.an_ts)) s.u_prob in
+  let ws = List.map (fun (_, nd) -> Printf.sprintf "%s:%s" (string_of_n nd.wn_key) (opt_n nd.wn_ts)) s.u_wo in
+  Printf.sprintf "ec=%s ws=%s skon=%d map=[%s] prob=[%s] wo=[%s] %s walk=ok live=%d:%d" (string_of_n s.u_ec)
+    (string_of_n s.u_ws) (if s.u_skon then 1 else 0) (String.concat "," es) (String.concat "," ps)
+    (String.concat "," ws) (fmt_sketch s.u_sk) (List.length entries) (List.length entries)
+
+let fmt_pairs (l : (n * n) list) : string =
+  let l = List.sort (fun (a, _) (b, _) -> n_cmp a b) l in
+  "[" ^ String.concat "," (List.map (fun (k, v) -> string_of_n k ^ ":" ^ string_of_n v) l) ^ "]"
+
+let parse_uop toks : uop =
+  match toks with
+  | [ "I"; k; v ] -> UInsert (n_of_string k, n_of_string v)
+  | [ "G"; k ] -> UGet (n_of_string k)
+  | [ "C"; k ] -> UContains (n_of_string k)
+  | [ "T" ] -> UIter
+  | [ "X"; k ] -> UInvalidate (n_of_string k)
+  | [ "A" ] -> UInvalidateAll
+  | "P" :: rest -> UInvalidateIf (pred_of (parse_pred rest))
+  | [ "D"; d ] -> UAdvance (n_of_string d)
+  | _ -> failwith ("bad unsync op: " ^ String.concat " " toks)
+
+let fmt_uout = function
+  | ONone -> "-"
+  | OVal v -> opt_n v
+  | OBool b -> if b then "1" else "0"
+  | OList l -> fmt_pairs l
+
 type mode =
   | MNone
   | MSketch of sketch
+  | MUnsync of ucfg * urun
   | MDead  (* the model returned Err: the rest of the case is skipped *)
 
 let split_ws s = List.filter (fun x -> x <> "") (String.split_on_char ' ' s)
@@ -93,12 +166,30 @@ let process (ic : in_channel) =
                | None -> (s, "")) kvs in
            (match List.assoc_opt "kind" kv with
             | Some "sketch" -> mode := MSketch sk_empty
+            | Some "unsync" ->
+              let c = { uc_cap = opt_of_string (assoc_def "cap" kv "none");
+                        uc_ttl = opt_of_string (assoc_def "ttl" kv "none");
+                        uc_tti = opt_of_string (assoc_def "tti" kv "none");
+                        uc_wf = weigher_of (parse_weigher (assoc_def "weigher" kv "none"));
+                        uc_hash = hasher_of (parse_hasher (assoc_def "hasher" kv "id")) } in
+              mode := MUnsync (c, urun_init)
             | Some k -> failwith ("unknown kind " ^ k)
             | None -> failwith "cfg without kind")
          | _ ->
            (match !mode with
             | MNone -> failwith "operation before cfg"
             | MDead -> ()
+            | MUnsync (_, _) when toks = [ "DROP" ] ->
+              Printf.printf "%d %s -> - | dropped live=0:0\n" !idx line;
+              mode := MDead
+            | MUnsync (c, r) ->
+              (match ustep c r (parse_uop toks) with
+               | Ok (r', out) ->
+                 Printf.printf "%d %s -> %s | %s\n" !idx line (fmt_uout out) (fmt_ustate r'.ur_state);
+                 mode := MUnsync (c, r')
+               | Err e ->
+                 Printf.printf "%d %s -> ERR %s\n" !idx line (string_of_err e);
+                 mode := MDead)
             | MSketch sk ->
               (match run_sketch_op sk toks with
                | Result.Ok (sk', out) ->
